@@ -334,10 +334,16 @@ fn visit_tcp(
         _ => None,
     };
 
+    // Minimal IP + TCP header size (what `detect_win_multiplicator` expects as `total_header`);
+    // `ip_package_header_length` is in 32-bit words for IPv4 and lacks the TCP header for IPv6.
+    let min_total_header: u16 = match version {
+        IpVersion::V6 => 60,
+        _ => 40,
+    };
     let wsize: WindowSize = detect_win_multiplicator(
         tcp.get_window(),
         mss.unwrap_or(0),
-        ip_package_header_length as u16,
+        min_total_header,
         olayout.contains(&TcpOption::TS),
         &version,
     );
